@@ -18,6 +18,7 @@ let () =
           | 'T' -> OThrdSet (kind o.[1], t 2, harg o.[3])
           | 'V' -> OViolate (kind o.[1], t 2)
           | 'P' -> OSpawn (t 1, t 2)
+          | 'C' -> OCall (t 2)
           | _ -> failwith "bad op") ops in
         let outs = run_hist h_init ops' in
         let s = List.map (fun r -> match r with
